@@ -201,6 +201,17 @@ def build() -> Check:
     src = ast.unparse(unwrap.node) if unwrap else ""
     ck.ob("R4.unwrap-recognises-envelopes", fn_construct(unwrap) if unwrap else "serdes.py:ContainerCodec._unwrap",
           "TYPE_TOKEN in obj" in src and "VALUE_TOKEN in obj" in src and "dispatcher.decode" in src, "_unwrap must decode {t, v} dictionaries through the dispatcher")
+    # ... and only those: a dictionary is an envelope when it has BOTH tokens (user data with a key "t" alone is user data - "returned unchanged")
+    if unwrap is not None:
+        tests_ = [c_.guard for m_ in ast.walk(unwrap.node) if isinstance(m_, ast.Match) for c_ in m_.cases if c_.guard is not None and "TOKEN" in ast.unparse(c_.guard)]
+        tests_ += [n_.test for n_ in ast.walk(unwrap.node) if isinstance(n_, ast.If) and "TOKEN" in ast.unparse(n_.test)]
+        both = [t_ for t_ in tests_ if isinstance(t_, ast.BoolOp) and isinstance(t_.op, ast.And) and {"TYPE_TOKEN in obj", "VALUE_TOKEN in obj"} <= {ast.unparse(v_) for v_ in t_.values}]
+        if tests_:
+            ck.ob("R4.unwrap-recognises-envelopes", fn_construct(unwrap), len(both) == len(tests_),
+                  f"_unwrap takes a dictionary for an envelope under `{ast.unparse(tests_[0])}`: a dictionary of the user's with only one of the two token keys is decoded (KeyError / "
+                  "a value altered) instead of being returned unchanged", cell="both tokens")
+        else:
+            ck.undecided_rule("R4.unwrap-recognises-envelopes: the test that recognises an envelope in _unwrap was not found")
 
     # R5 fast path --------------------------------------------------------------------------------------
     isp = sd.classes["SerDes"].methods.get("is_primitive")
